@@ -132,6 +132,17 @@ func gates() map[string]int {
 	}
 }
 
+// setupCase runs the reference run of a workload as a logged case; under the
+// replay filter (one case id only) it still runs, unlogged, because every crash
+// point of the workload needs it.
+func setupCase(c *fw.Ctx, id string, input interface{}, fn func()) bool {
+	if c.OnlyCase != "" && c.OnlyCase != id {
+		fn()
+		return true
+	}
+	return c.Case(id, input, fn)
+}
+
 // selectedBatch implements the developer aid VERIF_C04_ONLY="prefix:0,9 fail:12":
 // only the listed batches run (break-it validation of one mechanism without the
 // whole tier). Unset in every registered run.
@@ -237,7 +248,7 @@ func selectPrefixes(c *fw.Ctx, a *analysis) (sel []int, skipped int) {
 func runPrefix(c *fw.Ctx, spec Spec) {
 	var wl *Workload
 	var a *analysis
-	ok := c.Case("run-"+spec.Name, spec, func() {
+	ok := setupCase(c, "run-"+spec.Name, spec, func() {
 		wl = Build(spec)
 		run := wl.Execute(nil, nil)
 		for i, e := range run.StepErrs {
